@@ -130,6 +130,13 @@ func (s *ToxicStub) Close() {
 	if !s.Closed() {
 		close(s.closed)
 		close(s.Output)
+		// Nothing reads Input once the stub is closed. Keep draining it until the
+		// upstream side closes it, so that the stubs before this one and the
+		// goroutine copying from the socket are not left blocked on a send for ever.
+		go func(input <-chan *stream.StreamChunk) {
+			for range input {
+			}
+		}(s.Input)
 	}
 }
 
